@@ -577,21 +577,28 @@ pub fn run(ctx: &Ctx) -> ! {
     let targets: Vec<usize> = vec![1, 2, 3, 5];
     let limits: Vec<Option<usize>> = vec![None, Some(2), Some(4)];
     let schemas = [CSchema::Int, CSchema::View, CSchema::IntUtf8, CSchema::ViewInt, CSchema::Empty];
+    let mut configs: Vec<(CSchema, usize, Option<usize>)> = vec![];
     for schema in schemas {
         for &target in &targets {
             for &limit in &limits {
                 if ctx.quick() && limit.is_some() && !matches!(schema, CSchema::Int | CSchema::View) {
                     continue;
                 }
-                let m = CoalesceModel { target, limit, schema };
-                let mut s = Stats::new();
-                let label = format!("coalescer-{schema:?}-t{target}-l{limit:?}");
-                vcore::bfs::explore(ctx, &label, &m, depth, true, &mut s);
-                s.add("coalescer", s.transitions, s.states);
-                st.merge(s);
+                configs.push((schema, target, limit));
             }
         }
     }
+    // the configurations are independent explorations: run them in parallel, each BFS single-threaded
+    st.merge(par_for(ctx, "coalescer", configs.len() as u64, 1, |i, st| {
+        let (schema, target, limit) = configs[i as usize];
+        let m = CoalesceModel { target, limit, schema };
+        let mut s = Stats::new();
+        let label = format!("coalescer-{schema:?}-t{target}-l{limit:?}");
+        vcore::bfs::explore_with_threads(ctx, 1, &label, &m, depth, true, &mut s);
+        s.add("coalescer", s.transitions, s.states);
+        // violation order keys must not collide with the kernel part
+        st.merge(s);
+    }));
     st.extra.insert("coalescer_depth".into(), json!(depth));
     vcore::finish(
         ctx,
